@@ -273,6 +273,34 @@ func (a *muxAnalysis) expectedStarts() (starts map[int]int, t0 int) {
 	return
 }
 
+// observedUpTo reports whether every non-gap segment of the stream before media sequence number msn was
+// observed (fetched) by the harness; segments that enter and leave the window inside one Write call are not.
+func (a *muxAnalysis) observedUpTo(s *streamObs, msn int) bool {
+	seen := map[int]bool{}
+	for _, obj := range a.o.order {
+		if obj.stream == s && obj.kind == "segment" {
+			seen[obj.msn] = true
+		}
+	}
+	first := -1
+	pl := s.history[0].pl
+	for i, sg := range pl.Segments {
+		if !sg.Gap {
+			first = pl.MediaSequence + i
+			break
+		}
+	}
+	if first < 0 {
+		return false
+	}
+	for m := first; m < msn; m++ {
+		if !seen[m] {
+			return false
+		}
+	}
+	return true
+}
+
 func mod33(v int64) int64 { return ((v % (1 << 33)) + (1 << 33)) % (1 << 33) }
 
 // oracleC01: gap-free, byte-identical, ordered runs with the written timestamps.
@@ -304,7 +332,11 @@ func (a *muxAnalysis) oracleC01() {
 			if len(list) == 0 {
 				continue
 			}
-			if pass == 1 && list[0].obj.num != 0 {
+			if s := a.streamOfTrack[ts.id]; pass == 0 && s != nil && len(s.history) > 0 && (s.history[0].pl.MediaSequence > 0 || !a.observedUpTo(s, list[0].msn)) {
+				// several rotations inside the first observed Write call: the stream's first segment(s) entered and
+				// left the window before any playlist could be fetched
+				a.o.w.r.Probe("start-unobservable")
+			} else if pass == 1 && list[0].obj.num != 0 {
 				// the first part was never listed under our eyes (parts are only listed under the last two segments)
 			} else if list[0].u.idx != starts[ts.id] {
 				a.fail("start", fmt.Sprintf("%s-%v", ts.kind, ts.leading),
@@ -453,12 +485,18 @@ func (a *muxAnalysis) changedFlags() (changed, ambiguous map[int]bool) {
 // ratCmp compares (dts_b - dts_a)/clock with d: -1, 0, +1. The library floors both timestamps to
 // nanoseconds before subtracting, so an exact distance strictly between d-1ns and d may come out
 // either way; only that open interval is reported as "either". At or above d the cut is always due.
-func ratCmp(ticks int64, clock int, d time.Duration) (cmp int, either bool) {
+func ratCmp(ticks int64, clock int, d time.Duration, negative bool) (cmp int, either bool) {
 	// ticks/clock seconds vs d ns  <=>  ticks*1e9 vs d*clock
 	l := new(big.Int).Mul(big.NewInt(ticks), big.NewInt(1e9))
 	rr := new(big.Int).Mul(big.NewInt(int64(d)), big.NewInt(int64(clock)))
 	diff := new(big.Int).Sub(l, rr)
 	lim := big.NewInt(-int64(clock)) // -1 ns in units of ns*clock
+	if negative {
+		// MPEG-TS timestamps are not offset and may be negative: Go's integer division truncates towards zero,
+		// so across (or below) zero the library's difference can also come out up to 1 ns *short*
+		up := big.NewInt(int64(clock))
+		return diff.Sign(), diff.Cmp(lim) > 0 && diff.Cmp(up) < 0
+	}
 	return diff.Sign(), diff.Sign() < 0 && diff.Cmp(lim) > 0
 }
 
@@ -504,7 +542,7 @@ func (a *muxAnalysis) oracleC02() {
 			}
 			return true, false
 		}
-		cmp, near := ratCmp(un.dts-lt.units[start].dts, lt.clock, cfg.segMin)
+		cmp, near := ratCmp(un.dts-lt.units[start].dts, lt.clock, cfg.segMin, !cfg.isFMP4() && (un.dts < 0 || lt.units[start].dts < 0))
 		if !lt.video && !cfg.isFMP4() && callsInSeg < 100 {
 			return false, false
 		}
